@@ -274,6 +274,10 @@ def con_jobs(bindir, workdir, known, prop, mode, seed, nshards, programs=0, sche
             argv += ["--rounds", str(max(1, rounds // nshards))]
         if extra:
             argv += extra
+        if "--watchdog-secs" not in argv:
+            # last resort only (deadlock / livelock are decided on thread states and scheduler steps): generous, so that a
+            # loaded machine does not turn a slow run into an inconclusive shard
+            argv += ["--watchdog-secs", "120"]
         j = dict(name="con-%s-%s%s-%d" % (variant, mode, tag, s), argv=argv, out=out, kind="report")
         if watchdog_s:
             j["watchdog_s"] = watchdog_s
